@@ -144,6 +144,17 @@ OTHER_EXC = {"RecursionError": 1, "TypeError": 2, "ValueError": 3, "KeyError": 4
              "IndexError": 6, "OverflowError": 7}
 WS = [0x9, 0xa, 0xb, 0xc, 0xd, 0x1c, 0x1d, 0x1e, 0x1f, 0x20, 0x85, 0xa0, 0x1680] + list(range(0x2000, 0x200b)) + \
      [0x2028, 0x2029, 0x202f, 0x205f, 0x3000]
+# code points that LOOK like nothing (or like a blank) but are not white space - str.strip() leaves them, json parsing
+# rejects them outside strings: byte order mark, zero-width / directional / invisible format characters (Cf), controls
+# that are not blanks (Cc), noncharacters, a private-use and two tag characters, blank-looking letters / symbols.  What a
+# "tolerant" strict path, a BOM-skipping decoder or a tidy-up before json.loads would drop.
+INVISIBLE = [0xfeff, 0x200b, 0x2060, 0x200c, 0x200d, 0x00ad, 0x180e, 0x061c, 0x200e, 0x200f, 0x202a, 0x202c, 0x2061,
+             0x2066, 0x2069, 0xfff9, 0x0000, 0x0008, 0x001b, 0x007f, 0x0084, 0x0086, 0xfffe, 0xffff, 0xfffd, 0xe000,
+             0xe0001, 0xe0020, 0x1d173, 0x2800, 0x3164, 0x115f, 0xfe0f, 0x034f]
+INVISIBLE_QUICK = [0xfeff, 0x200b, 0x2060, 0x00ad, 0x200e, 0x0000, 0x007f, 0xfffe, 0xe0020, 0x2800]
+# white space by str.isspace that JSON's grammar does not know (JSON: space, tab, LF, CR): fine AROUND a document
+# (strip removes it), not BETWEEN its tokens
+WS_NOT_JSON = [c for c in WS if c not in (0x9, 0xa, 0xd, 0x20)]
 
 
 # ----------------------------------------------------------------------------------------------------------
@@ -1559,6 +1570,21 @@ class C11(Prop):
                                          f"{c} valid={r.valid} via {r.strategy_used}", idx))
                 elif r.valid and r.strategy_used == FS.STRICT and c != 1.0:
                     out.append(Violation("strict_has_full_confidence", "1.0", repr(c), idx))
+            # "... is 1.0 only for strict", strict being the strategy for "raw text that is already schema-valid JSON ...
+            #  exactly the values json parsing gives": a report that names strict / full confidence says that nothing had to
+            # be extracted, repaired or dropped - the text itself (white space around it aside) is what json parsing reads
+            claims_strict = r.valid and ((enhanced and (r.strategy_used == FS.STRICT or r.confidence == 1.0))
+                                         or (not enhanced and used == "s"))
+            if claims_strict and len(raw) <= 20000:
+                v = self.strict_reading(S, raw)
+                if v is None:
+                    out.append(Violation("full_confidence_only_for_text_that_is_json",
+                                         "strict / 1.0 only when json parsing reads the text as it stands",
+                                         f"{'fold_enhanced' if enhanced else 'fold'} reports strict for text json parsing rejects",
+                                         idx))
+                elif isinstance(r.structure, S) and not same_structure(v, r.structure):
+                    out.append(Violation("strict_gives_exactly_what_json_parsing_gives", repr(v)[:200],
+                                         repr(r.structure)[:200], idx))
             # "the plain and enhanced folds agree on validity and structure"
             # same instance, same configuration (no table / strategy-list / schema change in between)
             sk = "none" if x["strat"] in ("none", "omit", "-") else x["strat"]     # all three: the instance's own list
@@ -1574,6 +1600,15 @@ class C11(Prop):
                     out.append(Violation("plain_and_enhanced_agree_on_structure", repr(a.structure)[:150],
                                          repr(b.structure)[:150], max(i1, i2)))
         return out
+
+    @staticmethod
+    def strict_reading(S, text):
+        """what json parsing and the schema make of the text as it stands (white space around it aside); None when json
+        parsing or the schema rejects it"""
+        try:
+            return plain_validate(S, real_json.loads(text.strip()))
+        except Exception:
+            return None
 
     def judge_hooklog(self, idx, x, S, returned, out) -> list:
         """the reports the validator handed to the caller's on_misfold callback, judged by the property text; returns the
@@ -1649,6 +1684,11 @@ class C11(Prop):
                         if bad:
                             out.append(Violation("valid_structure_obtained_from_raw_text",
                                                  "every value is present in the raw text", f"made-up values {bad!r}"[:300], idx))
+                        # what the loop hands on names strict only for text that json parsing reads as it stands
+                        if f.strategy_used == FS.STRICT and len(text) <= 20000 and self.strict_reading(S, text) is None:
+                            out.append(Violation("full_confidence_only_for_text_that_is_json",
+                                                 "strict only when json parsing reads the generated text as it stands",
+                                                 "the healing loop hands on a strict fold of text json parsing rejects", idx))
                         # "Raw text that is already schema-valid JSON is accepted by the strict strategy with full
                         #  confidence and exactly the values json parsing gives" - the loop hands the validator's report on
                         try:
@@ -1762,6 +1802,8 @@ class C11(Prop):
 
     def corrupt(self, rng, s):
         ws = "".join(chr(rng.choice(WS)) for _ in range(rng.randint(1, 3)))
+        inv = chr(rng.choice(INVISIBLE[:3] + INVISIBLE)) * rng.choice([1, 1, 2])    # invisible, but not white space
+        wsj = chr(rng.choice(WS_NOT_JSON))                                          # white space, but not JSON's
         ops = [
             lambda s: s,
             lambda s: "```json\n" + s + "\n```",
@@ -1782,6 +1824,10 @@ class C11(Prop):
             lambda s: real_re.sub(r'"(f\d+)":', r'\1:', s),
             lambda s: s.replace("null", rng.choice(["undefined", "NaN"])),
             lambda s: ws + s + ws,
+            lambda s: inv + s,
+            lambda s: ws + inv + s + rng.choice(["", inv, ws]),
+            lambda s: s + inv,
+            lambda s: (lambda tok: s.replace(tok, tok + rng.choice([inv, wsj]), 1))(rng.choice([": ", ", ", "{", "["])),
             lambda s: s + " " + s.replace("1", "2"),
             lambda s: "{" + s,
             lambda s: s + "}",
@@ -1997,6 +2043,40 @@ class C11(Prop):
             raw = chr(cp) + '{"a": 1}' + chr(cp) + " "
             ws_cases.append({"lines": [f"schema {spec}", "new none", f"foldx {hexs(raw)} s", f"fold {hexs(raw)} r",
                                        f"foldx {hexs(raw)} le"], "note": "str.strip() code points"})
+        # invisible code points that are NOT white space (byte order mark, zero-width and directional format characters,
+        # non-blank controls, noncharacters, tag characters, blank-looking symbols) before / after / inside otherwise clean
+        # JSON, and white space JSON's grammar does not know BETWEEN the tokens: flat and nested documents (a nested one is
+        # beyond the bare-object pattern, so only STRICT could take it), every fold paired with its enhanced twin under
+        # the same strategies, STRICT alone and in front of / behind the others, and once through the healing loop
+        inv_cases = []
+        flat_spec, flat_doc = spec, '{"a": 1, "b": "x"}'
+        nest_spec, nest_doc = "a:int,n:n{i:int,t:ls}", '{"a": 1, "n": {"i": 2, "t": ["p", "q"]}}'
+        placements = [("before", lambda c, d: c + d), ("after", lambda c, d: d + c),
+                      ("behind leading blanks", lambda c, d: " \n" + c + " " + d + "\n"),
+                      ("after the first token", lambda c, d: d[0] + c + d[1:]),
+                      ("after a colon", lambda c, d: d.replace(": ", ":" + c, 1))]
+        if tier != "quick":
+            placements += [("doubled", lambda c, d: c + c + d), ("both ends", lambda c, d: c + d + c),
+                           ("before the last token", lambda c, d: d[:-1] + c + d[-1])]
+        inv_strats = ["none", "s", "rs", "ls"] + (["se", "e", "l", "r", "omit"] if tier != "quick" else [])
+        for cp in (INVISIBLE if tier != "quick" else INVISIBLE_QUICK):
+            for pname, place in placements:
+                for sp_, doc in ((flat_spec, flat_doc), (nest_spec, nest_doc)):
+                    raw = place(chr(cp), doc)
+                    L = [f"schema {sp_}", "new none"]
+                    for st in inv_strats:
+                        L += [f"fold {hexs(raw)} {st}", f"foldx {hexs(raw)} {st}"]
+                    L += [f"heal 0 1/10 {hexs(raw)}", "stats"]
+                    inv_cases.append({"lines": L, "note": f"invisible code point U+{cp:04X} {pname} clean JSON"})
+        for cp in (WS_NOT_JSON if tier != "quick" else [0x0b, 0x1c, 0x85, 0xa0, 0x2028, 0x3000]):
+            for pname, place in placements[3:5]:
+                for sp_, doc in ((flat_spec, flat_doc), (nest_spec, nest_doc)):
+                    raw = place(chr(cp), doc)
+                    L = [f"schema {sp_}", "new none"]
+                    for st in inv_strats:
+                        L += [f"fold {hexs(raw)} {st}", f"foldx {hexs(raw)} {st}"]
+                    L += [f"heal 0 1/10 {hexs(raw)}", "stats"]
+                    inv_cases.append({"lines": L, "note": f"white space JSON does not know (U+{cp:04X}) {pname}"})
         ctor_cases = []
         for ctor in ["none", "omit", "-", "s", "r", "le", "rs"]:
             for call in ["none", "omit", "-", "e", "sl"]:
@@ -2188,6 +2268,8 @@ class C11(Prop):
                 {"name": "deep nesting, scalar and null documents, coercion table x single strategies", "cases": edge_cases},
                 {"name": "all 66 strategy lists (None, [], every ordered subset) x representative raw texts", "cases": cases},
                 {"name": "every str.isspace code point and its neighbours around clean JSON", "cases": ws_cases},
+                {"name": "invisible code points that are not white space (BOM, zero-width, controls, tags) around / inside clean "
+                         "JSON x flat and nested documents x strategies, plain and enhanced paired", "cases": inv_cases},
                 {"name": "constructor strategies x call strategies (`or` glue)", "cases": ctor_cases}]
 
 
